@@ -273,8 +273,8 @@ def _remove_path_dot_segments(path: str) -> str:
         if segment != "..":
             output.append(segment)
         # In this case segment == '..', if we can, we should pop the last
-        # element
-        elif output:
+        # element (but never the empty string that stands for the root '/')
+        elif output and (len(output) > 1 or output[0] or not path.startswith("/")):
             output.pop()
 
     # If the path starts with '/' and the output is empty or the first string
